@@ -24,7 +24,7 @@ LEVEL_TEXT = ("Every fixed-size buffer access of the reader is an obligation dis
               "over all CFG paths; the per-suffix scratch object starts zero-filled for every suffix. Two byte-scanning loops over the message buffer are bounded by "
               "relational invariants (count + offset) that intervals cannot express; they are listed "
               "as not decided. Termination on endless streams is not decided."
-              "  Also decided (added after the seeded rounds): the library's own solution handler range-checks the item index of every suffix entry.")
+              "  Also decided (added after the seeded rounds): the library's own solution handler range-checks the item index of every suffix entry and stores the primal values in a vector of the model's size.")
 LEVEL_NOTE = ("Trusted: clang 14 front end/CFG, tool/mpx.cc, mpsa/intervals.py. fread/fgets/strtol are "
               "modelled as producing arbitrary values of their type; fgets(buf, n) writes at most n bytes.")
 DESIGN_REF = "DESIGN.md section 4, C14"
